@@ -929,6 +929,75 @@ where
     }
 }
 
+/// Verification hooks (raw state access); only built with the `verif` feature.
+#[cfg(feature = "verif")]
+#[doc(hidden)]
+impl<S> TDigest<S>
+where
+    S: Clone + Debug + ScaleFunction,
+{
+    /// Build a digest from explicit `(count, sum)` centroids.
+    pub fn verif_from_parts(
+        scale_function: S,
+        max_backlog_size: usize,
+        centroids: &[(f64, f64)],
+        min: f64,
+        max: f64,
+        n_samples: usize,
+    ) -> Self {
+        let mut inner = TDigestInner::new(scale_function, max_backlog_size);
+        for (count, sum) in centroids {
+            inner.centroids.push(Centroid {
+                count: *count,
+                sum: *sum,
+            });
+        }
+        inner.min = min;
+        inner.max = max;
+        inner.n_samples = n_samples;
+        Self {
+            inner: RefCell::new(inner),
+        }
+    }
+
+    /// Push a raw `(count, sum)` entry to the backlog without merging.
+    pub fn verif_push_backlog(&mut self, count: f64, sum: f64) {
+        self.inner
+            .borrow_mut()
+            .backlog
+            .push(Centroid { count, sum });
+    }
+
+    /// Number of centroids / backlog entries without triggering a merge.
+    pub fn verif_lens(&self) -> (usize, usize) {
+        let inner = self.inner.borrow();
+        (inner.centroids.len(), inner.backlog.len())
+    }
+
+    /// Raw `(count, sum)` of centroid `i` (no merge).
+    pub fn verif_centroid(&self, i: usize) -> (f64, f64) {
+        let inner = self.inner.borrow();
+        (inner.centroids[i].count, inner.centroids[i].sum)
+    }
+
+    /// Raw `(count, sum)` of backlog entry `i` (no merge).
+    pub fn verif_backlog(&self, i: usize) -> (f64, f64) {
+        let inner = self.inner.borrow();
+        (inner.backlog[i].count, inner.backlog[i].sum)
+    }
+
+    /// Raw sample counter handed to the scale function.
+    pub fn verif_n_samples(&self) -> usize {
+        self.inner.borrow().n_samples
+    }
+
+    /// Capacities of the centroid and backlog vectors.
+    pub fn verif_capacities(&self) -> (usize, usize) {
+        let inner = self.inner.borrow();
+        (inner.centroids.capacity(), inner.backlog.capacity())
+    }
+}
+
 #[cfg(test)]
 mod tests {
     use super::{ScaleFunction, TDigest, K0, K1, K2, K3};
